@@ -6,6 +6,7 @@ import ast
 import datetime
 import io
 import json
+import os
 import sys
 
 from hypothesis import strategies as st
@@ -32,7 +33,9 @@ RULE = (
     "line must occur). Facet cli: eliot-prettyprint's _main (module stdin/stdout replaced) over streams mixing valid "
     "lines, arbitrary bytes, invalid UTF-8, non-JSON text, JSON scalars/arrays/null and objects lacking 1-3 required "
     "fields, with and without -c/-l: never raises, and emits exactly one record per line as decided by an independent "
-    "classifier. Facet filter: eliot.filter.main over text-mode and EliotFilter over bytes input with expressions from a "
+    "classifier. Facet cli-fuzz: the same CLI oracle driven by coverage-guided fuzzing of raw byte streams (atheris/"
+    "libFuzzer, dictionary of the field names, half of the shards from a small seed corpus and half from nothing; inputs "
+    "with ill-typed required fields are discarded and counted). Facet filter: eliot.filter.main over text-mode and EliotFilter over bytes input with expressions from a "
     "table (identity, field access, .get, SKIP conditionals, falsy results, datetime arithmetic): output line i must "
     "json-equal the expression's value on input i, SKIP drops exactly the selected lines. Non-trivial: a message with a "
     "nested or multi-line value; a stream mixing >= 3 line classes. Distinct = canonical JSON of the case."
@@ -342,6 +345,152 @@ def check_cli(case):
     return {"classes": sorted(set(classes)), "lines": len(raws)}
 
 
+def _well_typed(value):
+    """Is this object inside the property's domain (required fields of the right types)?"""
+    try:
+        if not isinstance(value["task_uuid"], str):
+            return False
+        lvl = value["task_level"]
+        if not isinstance(lvl, list) or not all(isinstance(x, int) and not isinstance(x, bool) for x in lvl):
+            return False
+        ts = value["timestamp"]
+        if isinstance(ts, bool) or not isinstance(ts, (int, float)) or not (0 <= ts <= 4e9):
+            return False
+    except Exception:
+        return False
+    return all(isinstance(k, str) for k in value)
+
+
+def _depth(v, d=0):
+    if d > 60:
+        return d
+    if isinstance(v, list):
+        return max([d] + [_depth(x, d + 1) for x in v])
+    if isinstance(v, dict):
+        return max([d] + [_depth(x, d + 1) for x in v.values()])
+    return d
+
+
+def check_stream(data, compact=False):
+    """
+    Oracle for a raw byte stream (used by the atheris target and by replay of
+    its findings).  Returns None when the stream is outside the property's
+    domain (an object with ill-typed required fields, or absurd nesting).
+    """
+    raws = data.split(b"\n")
+    terminated = [True] * len(raws)
+    if raws and raws[-1] == b"":
+        raws.pop()
+        terminated.pop()
+    elif raws:
+        terminated[-1] = False
+    expected = ""
+    classes = set()
+    for raw, term in zip(raws, terminated):
+        # a reader sees the line with its terminator (matters for UTF-16/32 detection of odd byte strings)
+        kind, value = classify_line(raw + (b"\n" if term else b""))
+        classes.add(kind)
+        if kind == "notjson":
+            expected += "Not JSON: {}\n\n".format(raw)
+        elif kind == "notmessage":
+            expected += "Not an Eliot message: {}\n\n".format(raw)
+        else:
+            if not _well_typed(value) or _depth(value) > 40:
+                return None
+            fmt = pp.compact_format if compact else pp.pretty_format
+            try:
+                expected += fmt(value) + "\n"
+            except Exception as e:
+                raise Violation("format-raised", "%r for %r" % (e, raw[:200]))
+    out = run_cli(data, ["-c"] if compact else [])
+    require(out == expected, "cli-output", lambda: "input %r\n got      %r\n expected %r" % (data[:300], out[:400], expected[:400]))
+    return {"classes": sorted(classes), "lines": len(raws)}
+
+
+def check_raw(case):
+    data = bytes.fromhex(case["data_hex"])
+    info = check_stream(data, compact=bool(data and data[0] & 1))
+    return info or {"classes": [], "lines": 0}
+
+
+def classify_raw(case, info):
+    return len(info["classes"]) >= 3, ["classes=%d" % len(info["classes"])]
+
+
+def fuzz_runner(mod, facet, tier, seed, shard, nshards, stats):
+    """Coverage-guided fuzzing of the CLI with atheris, in a subprocess."""
+    import shutil
+    import subprocess
+    import tempfile
+    from ..core import VERIF, REPO, run_one
+
+    deps = os.path.join(VERIF, ".deps")
+    probe = subprocess.run([sys.executable, "-c", "import atheris"], env=dict(os.environ, PYTHONPATH=deps), capture_output=True)
+    if probe.returncode != 0:
+        subprocess.run(
+            [sys.executable, "-m", "pip", "install", "--no-index", "--find-links", "/opt/veriftools/wheels", "--target", deps, "atheris"],
+            capture_output=True,
+        )
+        probe = subprocess.run([sys.executable, "-c", "import atheris"], env=dict(os.environ, PYTHONPATH=deps), capture_output=True)
+    if probe.returncode != 0:
+        stats.extra["atheris"] = "unavailable; facet skipped"
+        return
+    runs = max(1000, facet.budget[tier] // nshards)
+    work = tempfile.mkdtemp(prefix="c20fuzz-")
+    try:
+        corpus_out = os.path.join(work, "corpus")
+        os.makedirs(corpus_out)
+        crashes = os.path.join(work, "crashes") + os.sep
+        os.makedirs(crashes)
+        stats_file = os.path.join(work, "stats.json")
+        seeds = os.path.join(VERIF, "corpus", "atheris-c20")
+        cmd = [
+            sys.executable,
+            "-m",
+            "pbt.fuzz_c20",
+            stats_file,
+            "-runs=%d" % runs,
+            "-seed=%d" % (seed * 1000 + shard + 1),
+            "-max_len=300",
+            "-dict=" + os.path.join(VERIF, "corpus", "atheris-c20.dict"),
+            "-artifact_prefix=" + crashes,
+            "-timeout=20",
+            "-rss_limit_mb=2048",
+            corpus_out,
+        ]
+        if shard % 2 == 0:
+            cmd.append(seeds)  # half of the shards start from the seed corpus, half from nothing
+        env = dict(os.environ, PYTHONPATH=VERIF + os.pathsep + deps, PYTHONHASHSEED="0", ELIOT_VERIF_REPO=REPO)
+        p = subprocess.run(cmd, env=env, cwd=VERIF, capture_output=True, text=True, timeout=3600)
+        data = {}
+        if os.path.exists(stats_file):
+            with open(stats_file) as f:
+                data = json.load(f)
+        stats.evaluations += int(data.get("execs", 0))
+        for h in data.get("nontrivial", []):
+            stats.nontrivial.add(bytes.fromhex(h))
+        for k, v in data.get("classes", {}).items():
+            stats.labels[k] = stats.labels.get(k, 0) + v
+        stats.labels["discarded-out-of-domain"] = stats.labels.get("discarded-out-of-domain", 0) + int(data.get("discarded", 0))
+        for hx in data.get("samples", [])[:2]:
+            stats.small.append((len(hx), {"data_hex": hx}))
+        stats.extra["atheris_runs_requested"] = runs
+        stats.extra["seed_corpus"] = "yes" if shard % 2 == 0 else "empty"
+        for name in sorted(os.listdir(crashes)):
+            with open(os.path.join(crashes, name), "rb") as f:
+                raw = f.read()
+            case = {"data_hex": raw.hex()}
+            info, violation, key = run_one(mod, facet, case)
+            if violation is not None and key is None:
+                stats.note_failure(case, violation)
+            elif name.startswith(("crash", "timeout", "oom")) and violation is None:
+                stats.extra["unreproduced_artifact"] = name
+        if p.returncode not in (0,) and not os.listdir(crashes) and "Done" not in p.stderr:
+            stats.extra["fuzzer_exit"] = "%d: %s" % (p.returncode, p.stderr[-300:])
+    finally:
+        shutil.rmtree(work, ignore_errors=True)
+
+
 def classify_cli(case, info):
     kinds = sorted(set(s[0] for s in case["lines"]))
     labels = ["line:" + k for k in kinds] + ["classes=%d" % len(info["classes"])]
@@ -474,4 +623,5 @@ FACETS = [
     Facet("real", real_strategy, check_real, classify_real, quick=150, thorough=3000),
     Facet("cli", cli_strategy, check_cli, classify_cli, quick=600, thorough=20000),
     Facet("filter", filter_strategy, check_filter, classify_filter, quick=600, thorough=20000),
+    Facet("cli-fuzz", None, check_raw, classify_raw, quick=40000, thorough=2400000, quick_shards=4, thorough_shards=8, runner=fuzz_runner),
 ]
